@@ -135,8 +135,10 @@ def run(ctx):
               wh, "header frame = write(RECORDSTREAM_MAGIC)")
     rh = ctx.anchor_func("flow.record.stream.RecordStreamReader.readheader")
     ends = [c for c in calls_in(rh) if isinstance(c.func, ast.Attribute) and c.func.attr == "endswith"]
-    ctx.check(bool(ends) and _fold(prog, stream_m, ends[0].args[0]) == SPEC["magic"], "R2.1", "magic:read", "the reader does not test the header for the magic", rh,
-              "header.endswith(RECORDSTREAM_MAGIC)")
+    contains = [n for n in ast.walk(rh) if isinstance(n, ast.Compare) and isinstance(n.ops[0], (ast.In, ast.NotIn, ast.Eq, ast.NotEq))]
+    tested = (bool(ends) and _fold(prog, stream_m, ends[0].args[0]) == SPEC["magic"]) or any(
+        _try_fold(prog, stream_m, n.left) == SPEC["magic"] or _try_fold(prog, stream_m, n.comparators[0]) == SPEC["magic"] for n in contains)
+    ctx.check(tested, "R2.1", "magic:read", "the reader does not test the header for the magic", rh, "header tested against RECORDSTREAM_MAGIC")
     # msgpack options
     for fname, spec_key, caller, hook_kw, hook_target in (("packb", "packb_options", pack, "default", "self.pack_obj"),
                                                            ("unpackb", "unpackb_options", unpack, "ext_hook", "self.unpack_obj")):
@@ -298,6 +300,13 @@ def run(ctx):
             kws = {k.arg for k in c.keywords}
             ctx.check(kws <= {"unversioned"} and not c.args, "R2.6", f"pack_obj:{b.guard_cls.split('.')[-1]}:_pack-arguments",
                       f"the serialiser calls _pack with {sorted(kws)}", c, f"_pack({', '.join(sorted(kws))})")
+
+
+def _try_fold(prog, module, e):
+    try:
+        return prog.fold(module, e)
+    except NotConst:
+        return None
 
 
 def _fold(prog, module, e):
